@@ -56,7 +56,18 @@ _get = st.tuples(st.just("get"), st.integers(0, len(CNS) - 1), _sans, st.sampled
 _add = st.tuples(st.just("add"), st.integers(0, len(CUSTOM) - 1),
                  st.lists(st.integers(0, len(EXTRA_NAMES) - 1), max_size=2))
 _again = st.tuples(st.just("again"), st.integers(0, 40))  # repeat the k-th earlier get
-_op = st.integers(0, 11).flatmap(lambda i: _get if i < 7 else _again if i < 11 else _add)
+
+
+def _weighted(*pairs):
+    """one_of with integer weights (one_of drops repeated strategy *objects*, so every copy is a distinct .map())"""
+    out = []
+    for strat, w in pairs:
+        # wrapped in a 1-tuple: a mapped one_of would be flattened into its branches and change the weights
+        out.extend(st.tuples(strat).map(lambda t: t[0]) for _ in range(w))
+    return st.one_of(out)
+
+
+_op = _weighted((_get, 7), (_again, 4), (_add, 1))
 
 
 def strategy(ctx):
@@ -68,12 +79,12 @@ def strategy(ctx):
     # (few registrations and never "*", otherwise custom certificates answer everything and nothing is generated)
     add_nostar = st.tuples(st.just("add"), st.integers(0, len(CUSTOM) - 1),
                            st.lists(st.integers(2, len(EXTRA_NAMES) - 1), max_size=1))
-    get_or_again = st.integers(0, 9).flatmap(lambda i: _get if i < 8 else _again)
+    get_or_again = _weighted((_get, 8), (_again, 2))
     big = st.fixed_dictionaries({
         "cap": st.just(100),
         "ops": st.tuples(st.lists(add_nostar, max_size=2), st.lists(get_or_again, min_size=200, max_size=330)).map(
             lambda t: list(t[0]) + list(t[1]))})
-    return st.integers(0, 19).flatmap(lambda i: big if i == 0 else small)
+    return _weighted((big, 1), (small, 19))
 
 
 def forms(name):
